@@ -295,3 +295,56 @@ func TestRWMutexQueuedReadersBeforeNextWriter(t *testing.T) {
 	}
 	t.Logf("reader saw 1 in %d schedules, 2 in %d (possible only if it queued after B had announced)", sawOne, sawTwo)
 }
+
+func TestManagedTimers(t *testing.T) {
+	// NewTimer/Stop/Reset, Ticker, AfterFunc (fired and stopped) and Sleep under every single forced switch
+	var fired, ticks, funcs, stopped int
+	prog := func() {
+		fired, ticks, funcs, stopped = 0, 0, 0, 0
+		var wg WaitGroup
+		wg.Add(3)
+		Go(func() { // a timer that fires, and one that is stopped and reset
+			defer wg.Done()
+			tm := NewTimer(time.Millisecond)
+			if wait2(tm.C, nil) == 0 {
+				fired++
+			}
+			tm2 := NewTimer(time.Hour)
+			if tm2.Stop() {
+				stopped++
+			}
+			tm2.Reset(time.Millisecond)
+			wait2(tm2.C, nil)
+			fired++
+		})
+		Go(func() { // three ticks, then stop
+			defer wg.Done()
+			tk := NewTicker(time.Millisecond)
+			for i := 0; i < 3; i++ {
+				wait2(tk.C, nil)
+				ticks++
+			}
+			tk.Stop()
+		})
+		Go(func() {
+			defer wg.Done()
+			var inner WaitGroup
+			inner.Add(1)
+			AfterFunc(time.Millisecond, func() { funcs++; inner.Done() })
+			never := AfterFunc(time.Hour, func() { funcs += 100 })
+			Sleep(2 * time.Millisecond)
+			if never.Stop() {
+				stopped++
+			}
+			inner.Wait()
+		})
+		wg.Wait()
+	}
+	allSingle(t, prog, func(o Outcome, at, c int) {
+		if o.Deadlock || o.Panic != "" || o.TimedOut || fired != 2 || ticks != 3 || (funcs != 1 && funcs != 101) || stopped > 2 {
+			// (a forced choice may fire ANY pending timer, also the one-hour one before the 2 ms sleep is over:
+			// virtual time over-approximates real time, relative deadlines are not kept)
+			t.Fatalf("timer program misbehaved: %+v at %d/%d fired=%d ticks=%d funcs=%d stopped=%d\n%v", o, at, c, fired, ticks, funcs, stopped, o.Trace)
+		}
+	})
+}
